@@ -6,6 +6,20 @@ let bytes_of_hex s = List.map n_of_int (hex_decode s)
 let hex_of_bytes l = hex_encode (List.map int_of_n l)
 let ob s = match s with "-" -> None | "1" -> Some true | _ -> Some false
 let plain_text (l : n list) = List.for_all (fun b -> let c = int_of_n b in c = 10 || (c >= 32 && c < 127)) l
+(* the one class of ANSI escape sequences whose removal is decided here: colour / style sequences ESC [ digits-and-semicolons m
+   in otherwise plain text.  [strip_sgr] removes exactly those; [sgr_text] says that a payload is in the class. *)
+let rec sgr_tail = function
+  | c :: r when (let x = int_of_n c in (x >= 48 && x <= 57) || x = 59) -> sgr_tail r
+  | c :: r when int_of_n c = 109 -> Some r
+  | _ -> None
+let rec strip_sgr (l : n list) : n list = match l with
+  | a :: b :: r when int_of_n a = 27 && int_of_n b = 91 -> (match sgr_tail r with Some r' -> strip_sgr r' | None -> a :: strip_sgr (b :: r))
+  | a :: r -> a :: strip_sgr r
+  | [] -> []
+let rec sgr_text (l : n list) = match l with
+  | a :: b :: r when int_of_n a = 27 && int_of_n b = 91 -> (match sgr_tail r with Some r' -> sgr_text r' | None -> false)
+  | a :: r -> (let c = int_of_n a in c = 10 || (c >= 32 && c < 127)) && sgr_text r
+  | [] -> true
 let find_single pat l =
   (* first offset at which pat occurs, if single_at holds there *)
   let n = List.length l in
@@ -64,11 +78,12 @@ let run () = iter_lines (fun line ->
        if ma <> a then report "DIFF:crlf" ("model=" ^ ma) line;
        if a <> hex_of_bytes (crlf_spec b) then report "SPEC:C13" "replace_crlf does not remove exactly the CRs that are followed by LF" line;
        let strip_on = (ob strip = Some true) in
-       if strip_on && not (plain_text b) then bump "crlf:strip-not-compared(control bytes)"
+       if strip_on && not (sgr_text b) then bump "crlf:strip-not-compared(control bytes)"
        else begin
-         let mc = hex_of_bytes (render_output (fun x -> x) (ob keep) (ob strip) b) in
+         if strip_on && not (plain_text b) then bump "crlf:strip-compared(colour sequences)";
+         let mc = hex_of_bytes (render_output strip_sgr (ob keep) (ob strip) b) in
          if mc <> c then report "DIFF:render_output" ("model=" ^ mc) line;
-         let expect = if ob keep = Some true then b else crlf_spec b in
+         let expect = (let e = if ob keep = Some true then b else crlf_spec b in if strip_on then strip_sgr e else e) in
          if c <> hex_of_bytes expect then report "SPEC:C13" "render_output applies a transformation other than the documented ones" line
        end
      | _ -> report "BAD" "crlf case" line)
@@ -85,12 +100,13 @@ let run () = iter_lines (fun line ->
            | _ -> failwith "cmd") in
        let cs = List.map parse_cmd (split_on ';' cmds) in
        let strip_on = (ob strip = Some true) in
-       let all_plain = List.for_all (fun (ws, _) -> List.for_all (fun (_, b) -> plain_text b) ws) cs in
+       let all_plain = List.for_all (fun (ws, _) -> List.for_all (fun (_, b) -> sgr_text b) ws) cs in
+       if strip_on && all_plain && not (List.for_all (fun (ws, _) -> List.for_all (fun (_, b) -> plain_text b) ws) cs) then bump "exec:strip-compared(colour sequences)";
        bump (Printf.sprintf "exec:%s/stream:%s/keep:%s" ex os keep); note_distinct line true; sample line;
        if strip_on && not all_plain then bump "exec:strip-not-compared(control bytes)"
        else begin
          let expect = String.concat "," (List.map (fun (ws, code) ->
-             let (o, e) = recorded (fun x -> x) combined (ob keep) (ob strip) ws in
+             let (o, e) = recorded strip_sgr combined (ob keep) (ob strip) ws in
              Printf.sprintf "%d:%s:%s" code (hex_of_bytes o) (hex_of_bytes e)) cs) in
          let has_prefix (b : n list) =
            let s = String.concat "" (List.map (fun x -> String.make 1 (Char.chr (int_of_n x))) b) in
